@@ -175,5 +175,17 @@ PROPS["C17"] = {
     "trusted_base": API_TRUST,
 }
 
+NET_TRUST = ["environment assumptions of the socket model (DESIGN 4.5): a datagram sent to port p is delivered to the socket bound to p or dropped; loopback preserves the order of datagrams sent one at a time; Close makes a blocked read return",
+             "Go runtime, Linux loopback networking; real sockets on 127.0.0.1 (the only place a verdict could depend on machine load: sends are serialised and callbacks awaited with 2 s time-outs)"]
+PROPS["C10"] = {
+    "engine": "net", "properties_file": "Properties/C10.v", "env": {"TZ": "UTC"},
+    "model_files": ["Model/Listen.v", "Model/ListenProc.v", "Model/Cases10.v", "Spec/ReplySpec.v"],
+    "technique": "Coq: two-process transition system (receiver, unbuffered pipe, dispatcher) with an invariant over all interleavings; the real Listen on a loopback UDP port fed by 1-3 sender sockets",
+    "level_text": "Proved for every interleaving of the receiver goroutine, the rendezvous on the unbuffered pipe and the dispatcher goroutine, and every finite datagram sequence: at every reachable state the delivered events are a prefix, in arrival order, of the statuses of the valid datagrams consumed so far and the error callbacks are exactly the invalid ones; at quiescence every valid event has been delivered exactly once and OnConnected came first; the handler never panics. Tie: the REAL listener (ut0311.Listen, uhppote.listen, Listen's dispatcher) bound to a loopback port, 24 (thorough 400) start/send/stop sessions re-binding the same port immediately, sequences of 5-45 (50-500) datagrams mixing valid events (all field pools), v6.62 (0x19) events and every malformed class incl. empty and > 2048-byte datagrams from 1-3 sender sockets; observed callbacks = model; oracle = flat event specification; OnConnected once and first, Listen returns nil, delivered statuses unchanged afterwards.",
+    "level_note": "Partial: goroutine scheduling and UDP delivery are the runtime's; the harness sends one datagram at a time and waits for its callback, so loss would show as a time-out failure (never as a silent pass). Listen does not join its dispatcher goroutine: the last OnEvent may still run when Listen returns - the property does not forbid that.",
+    "rule": "sessions as described; non-trivial = every session (>= 5 datagrams); distinct = distinct Coq case terms (one per session); datagram totals under coverage.extra.",
+    "trusted_base": NET_TRUST,
+}
+
 DEV = {"API": {"engine": "api", "properties_file": "Properties/C12.v", "model_files": [], "env": {"TZ": "UTC"}}}
 NOT_YET = {}
